@@ -157,6 +157,10 @@ func runGCCase(c *engine.Ctx, gc gcCase) {
 		}
 		ol.SetOrder("N", ids)
 		ol.SetOrder("M", []string{other.Node.K.KeyID})
+		if len(engine.J(gc))%2 == 0 {
+			ol.EmptyIsNil = true
+			r.Count("nodeid_worlds_whose_loader_answers_unknown_ids_with_an_empty_set", 1)
+		}
 	}
 	unreg := world.NewKeys()
 	signerKey := func(code int) ed25519.PrivateKey {
